@@ -304,17 +304,16 @@ func checkClientPairing(p *Prog, r *Report) {
 		owner := u.fn
 		anchor := u.in
 		for owner.Parent() != nil {
-			mc := p.makeClosureOf(owner)
-			if mc == nil {
-				break
-			}
+			// the literal is applied synchronously (a plain call) at exactly one place of its parent
 			var callIn ssa.Instruction
-			for _, ref := range refs(mc) {
-				if c, ok := ref.(*ssa.Call); ok && c.Call.Value == mc {
-					callIn = ref
+			n := 0
+			eachInstr(owner.Parent(), func(x ssa.Instruction) {
+				if c, ok := x.(*ssa.Call); ok && literalCallee(&c.Call) == owner {
+					callIn = x
+					n++
 				}
-			}
-			if callIn == nil {
+			})
+			if callIn == nil || n != 1 {
 				break
 			}
 			anchor = callIn
